@@ -171,6 +171,38 @@ def start_not_empty(prog: Program, rep, RID: str):
                       "HiGHS reports kModelEmpty, solve() takes that for an inconclusive status and returns False without trying k = 1", f.loc(loops[0]))
 
 
+def multiplicity_is_a_count(prog: Program, rep, RID: str):
+    """MinFlowDecompCycles hands its largest flow value to MinGenSet as max_multiplicity (the number of times an element may be repeated); MinGenSet
+    rejects a value below 1, so the call must be preceded by a guard that leaves (returns None: no bound) when that value is below 1."""
+    f = prog.own_method("MinFlowDecompCycles", "_get_lowerbound_with_min_gen_set")
+    calls = [c for c in calls_in(f.node) if (dotted(c.func) or "").endswith("MinGenSet")]
+    if not calls:
+        raise AnalysisError("MinFlowDecompCycles._get_lowerbound_with_min_gen_set: MinGenSet call not found")
+    for c in calls:
+        kw = [k for k in c.keywords if k.arg == "max_multiplicity"]
+        key = "MinFlowDecompCycles._get_lowerbound_with_min_gen_set:max_multiplicity"
+        if not kw:
+            raise AnalysisError("MinFlowDecompCycles: MinGenSet is called without max_multiplicity")
+        val = norm(kw[0].value)
+        m = re.match(r"^max\(1, (.*)\)$", val)
+        if m:
+            rep.ok(RID, key, f"`{val}` is at least 1", f.loc(c))
+            continue
+        guards = []
+        for st in f.node.body:
+            if getattr(st, "lineno", 0) >= c.lineno:
+                break
+            if isinstance(st, ast.If) and st.body and isinstance(st.body[-1], ast.Return) and not st.orelse:
+                guards.append(norm(st.test))
+        want = {f"{val} < 1", f"not {val} >= 1", f"1 > {val}", f"not ({val} >= 1)"}
+        if any(g in want for g in guards):
+            rep.ok(RID, key, f"no bound is computed when `{val} < 1`", f.loc(c))
+        else:
+            rep.violation(RID, key, f"`max_multiplicity={val}` is a flow value, not a count: for float flows below 1 (s->a 0.75, a->t 0.5, a->u 0.25) MinGenSet rejects it and "
+                          "solve() raises '`max_multiplicity` must be at least 1.' with use_min_gen_set_lowerbound=True; no guard leaves the helper before the call when "
+                          f"`{val} < 1`", f.loc(c))
+
+
 def check(prog: Program, rep):
     rep.rule("C15.R1", "formulations conform to the frozen table; helper preconditions", floor=20)
     conformance(prog, rep, "C15.R1", "C15")
@@ -196,4 +228,15 @@ def check(prog: Program, rep):
     data_rhs_converted(prog, rep, "C15.R7", {"MinGenSet": ["_create_solver", "_encode_partition_constraints"]})
     from rules.values import float_sum_exact_compare
     float_sum_exact_compare(prog, rep, "C15.R7", "MinGenSet", "__init__")
+    rep.rule("C15.R8", "the numbers handed to MinGenSet by the lower-bound helpers, and its own count parameter, are Python numbers before any arithmetic; "
+             "the multiplicity MinFlowDecompCycles passes is a count", floor=4)
+    from rules.values import python_arithmetic, count_parameter_as_python_number
+    helpers = [prog.own_method("MinFlowDecomp", m) for m in ("_get_source_flow", "_get_partition_constraints_for_min_gen_set", "_get_lowerbound_with_min_gen_set")] + \
+              [prog.own_method("MinFlowDecompCycles", m) for m in ("_get_source_flow", "_get_lowerbound_with_min_gen_set")]
+    if python_arithmetic(prog, rep, "C15.R8", helpers, "the total handed to MinGenSet wraps around (np.uint8 169 + 170 + 171 = 254): the 'lower bound' 4 is computed for three "
+                         "disjoint routes and MinFlowDecomp reports 4 paths instead of 3") < 3:
+        raise AnalysisError("the sums of the lower-bound helpers of MinFlowDecomp / MinFlowDecompCycles were not found")
+    count_parameter_as_python_number(prog, rep, "C15.R8", "MinGenSet", "max_multiplicity",
+                                     "ceil(log2(max_multiplicity + 1)) bits are counted from it, and np.uint8(255) + 1 is 0 (math domain error from the constructor of the model)")
+    multiplicity_is_a_count(prog, rep, "C15.R8")
 
